@@ -95,6 +95,26 @@ Theorem field_fits :
      0 <= sc < 1099511627776 /\ 0 <= sy < 1099511627776 /\ 0 <= sx < 1099511627776).
 Proof. exact field_fits_lemma. Qed.
 
+(* operand order and scale mode of elementwise ADD/SUB: for either operand order the pair written to
+   IFM2_BROADCAST bit 6 / IFM_PRECISION[9:8] selects for the 32-bit rescale the feature map the reference chose;
+   swapping the operands swaps the mode (an unswapped mode selects the other feature map); the mode survives
+   the IFM_PRECISION bit packing *)
+Theorem scale_mode_denotes :
+  forall reversed ifm_smaller : bool,
+    rescaled_is_ifm reversed (scale_mode reversed (op_to_scale_ref ifm_smaller)) = ifm_smaller.
+Proof. exact scale_mode_denotes_lemma. Qed.
+
+Theorem scale_mode_swap :
+  forall (r : bool) m, m = scale_OPa \/ m = scale_OPb ->
+    scale_mode (negb r) m = swap_operand (scale_mode r m) /\
+    rescaled_is_ifm (negb r) (scale_mode r m) = negb (rescaled_is_ifm r (scale_mode r m)).
+Proof. exact scale_mode_swap_lemma. Qed.
+
+Theorem scale_mode_field :
+  forall sg bits b16 (r sm : bool), bits_ok bits = true ->
+    (ifm_precision_field sg bits b16 (scale_mode r (op_to_scale_ref sm)) / 256) mod 4 = scale_mode r (op_to_scale_ref sm).
+Proof. exact scale_mode_field_lemma. Qed.
+
 (* framing of generate_command_stream: writes, then the frame's waits, then its operation command; one STOP,
    at the end *)
 Theorem stream_wellformed :
@@ -133,3 +153,4 @@ Print Assumptions field_fits.
 Print Assumptions stream_wellformed.
 Print Assumptions alignment_checks_complete.
 Print Assumptions out_of_range_rejected_refuted.
+Print Assumptions scale_mode_denotes.
